@@ -242,3 +242,161 @@ def s_isinstance_node(I, n, name):
 
 
 SPEC_NS["isinstance_node"] = s_isinstance_node
+
+# ---------------------------------------------------------------------------------------------- SequenceAdapter.assign
+
+from pyvc.core import zint as _zint
+from pyvc.types import Obj as _O2, SSet as _SSet
+
+SA = "inline_snapshot._adapter.sequence_adapter"
+
+
+def p_defaultdict(I, args, kwargs, node):
+    """to_insert = defaultdict(list): only the set of keys (insert positions) is tracked; the lists are opaque."""
+    d = _O2("defaultdict", {})
+    I.ghost["ins_positions"] = _SSet(z3.K(z3.IntSort(), z3.BoolVal(False)), INT)
+
+    def getitem(I2, key):
+        k = _zint(key)
+        I2.oblige("safety", "insert-position-within-old-elements [C18,C02]", z3.And(k >= 0, k <= I2.param_env.lookup("old_value").nz()))
+        cur = I2.ghost["ins_positions"]
+        I2.ghost["ins_positions"] = _SSet(z3.Store(cur.pred, k, True), INT)
+        return _O2("insert-list", {"append": lambda I3, x: None})
+
+    def items(I2):
+        its = fresh_value(I2.ctx, parse_ty("List[Tuple[Int,Codes]]"), "to_insert_items")
+        acc = sort_of(parse_ty("Tuple[Int,Codes]")).accessor(0, 0)
+        i = z3.Int(I2.ctx.fresh_name("pi"))
+        pred = I2.ghost["ins_positions"].pred
+        I2.ctx.assume(z3.ForAll([i], z3.Implies(z3.And(0 <= i, i < its.nz()), z3.Select(pred, acc(z3.Select(its.arr, i)))), patterns=[z3.Select(its.arr, i)]), tag="dict-items")
+        return its
+
+    d.fields["__getitem__"] = getitem
+    d.fields["items"] = items
+    return d
+
+
+def p_listinsert(I, args, kwargs, node):
+    return _O2("inline_snapshot._change.ListInsert", {"flag": args[0], "file": args[1], "node": args[2], "position": args[3], "new_code": Opaque("codes"), "new_values": Opaque("values")})
+
+
+def s_itpos(I, it):
+    p = it.pos
+    return p if isinstance(p, int) else SV(p, INT)
+
+
+SPEC_NS["itpos"] = s_itpos
+
+
+def seq_child_assign(I, args, kwargs, node):
+    """child call inside SequenceAdapter.assign: the element handed down is paired with *its own* node (C11/C10/C03),
+    then the child's generic contract is assumed (induction over the structure): P-val under E1."""
+    o, nd, n = args[-3], args[-2], args[-1]
+    env = I.param_env
+    old_value, old_node = env.lookup("old_value"), env.lookup("old_node")
+    elts = I.getattr(old_node, "elts")
+    q = z3.Int(I.ctx.fresh_name("q"))
+    nt = nd.t if isinstance(nd, SV) else (I.V.none_const(Abs("Node")) if nd is None else z3.Const(I.ctx.fresh_name("unknown_node"), sort_of(Abs("Node"))))
+    good = z3.Exists([q], z3.And(0 <= q, q < old_value.nz(), val_term(I, o) == z3.Select(old_value.arr, q),
+                                 z3.If(old_node.t != I.V.none_const(Abs("Node")), nt == z3.Select(elts.arr, q), nt == I.V.none_const(Abs("Node")))))
+    I.oblige("call-pre", f"child-gets-the-node-of-its-own-element@{getattr(node, 'lineno', '?')} [C11,C10,C03,C02]", good)
+    g = abstract_assign(I, args, kwargs, node)
+    eqf = z3.Function("eq_Val", sort_of(VAL), sort_of(VAL), sort_of(VAL))
+    tr = z3.Function("truthy_Val", sort_of(VAL), z3.BoolSort())
+    I.ctx.assume(tr(eqf(g.fields["value"].t, val_term(I, n))), tag="IH-child-P-val")
+    return g
+
+
+for cls, seqty, nodecls in (("ListAdapter", "List[Val]", "List"), ("TupleAdapter", "TupleSeq[Val]", "Tuple")):
+    contract(
+        SA + ".SequenceAdapter.assign",
+        name=f"{SA}.SequenceAdapter.assign#{cls}",
+        self_cls=f"{SA}.{cls}",
+        params={"self": "@SAdapter", "old_value": seqty, "old_node": "Node", "new_value": seqty},
+        shapes={"SAdapter": Shape(SA + ".SequenceAdapter", {"context": "@Context"})},
+        callees={"Adapter.get_adapter": _va_policy, "Adapter.assign": seq_child_assign, "warnings.warn_explicit": "havoc", "Adapter.value_assign": "inline",
+                 "ValueAdapter": "inline", "inline_snapshot._compare_context.compare_context": "havoc", "collections.defaultdict": p_defaultdict,
+                 "defaultdict": p_defaultdict, "ListInsert": p_listinsert},
+        returns=None,
+        result_name="ret",
+        uses=["val", "E1", "cnt"],
+        requires={
+            # established by SequenceAdapter.items / UndecidedValue: the value was obtained by evaluating the node
+            "denotes": f"implies(old_node is not None and isinstance_node(old_node, '{nodecls}'), len(old_node.elts) == len(old_value))",
+        },
+        loops={
+            0: Loop(index="k0", inv={"nothing-yet": "len(trace) == 0",
+                                     "no-star-so-far": "all(not isinstance_node(old_node.elts[j], 'Starred') for j in range(0, k0))"}),
+            1: Loop(index="t", ghost_modifies=["ins_positions"], inv={
+                "lemma-instances": "use_cnt_facts(diff, 'mxd', t) and use_cnt_facts(diff, 'mxi', t)",
+                "old-consumed": "itpos(old) == cnt(diff, 'mxd', t) and old_position == itpos(old)",
+                "new-consumed": "itpos(new) == cnt(diff, 'mxi', t) and len(result) == itpos(new)",
+                "result-equals-new-so-far": "all(T(eq(result[j], new_value[j])) for j in range(0, len(result)))",
+            }),
+            2: Loop(index="k2", ghost_modifies=[], inv={"trivial": "True"}),
+        },
+        ensures={
+            # C02: the recorded value has the new length and every element equals the new element (E1, children by induction)
+            "result-equals-the-new-sequence [C02]": "ifdef(['diff'], len(ret) == len(new_value) and all(T(eq(ret[j], new_value[j])) for j in range(0, len(new_value))))",
+            # C10: "containers holding star-expressions are never altered by any category"
+            "star-container-is-frozen [C10]": f"implies(old_node is not None and isinstance_node(old_node, '{nodecls}')"
+                " and any(isinstance_node(old_node.elts[j], 'Starred') for j in range(0, len(old_node.elts))), same(ret, old_value) and len(trace) == 0)",
+        },
+        ghost={"vars": {"ins_positions": "=None"}, "none_list_ty": "Node", "locals": {"result": "List[Val]"}, "untracked": ["new_code"],
+               "props": ["C11", "C10", "C03", "C18"], "light_feasibility": False},
+        safety_props=["C18"],
+        assumes=["E1", "X3", "X9"],
+    )
+
+# ---------------------------------------------------------------------------------------------- GenericCallAdapter.map
+
+GC = "inline_snapshot._adapter.generic_call_adapter"
+
+
+def p_arguments(I, args, kwargs, node):
+    """cls.arguments(value) -> (positional Argument list, keyword Argument dict): abstract (dataclasses/attrs/pydantic introspection)"""
+    a = fresh_value(I.ctx, parse_ty("List[Val]"), "pos_args")
+    I.ghost["pos_args"] = a
+    I.ghost["kw_args"] = Opaque("new_kwargs")
+    return (Opaque("new_args"), Opaque("new_kwargs"))
+
+
+def pat_map_pos(I, n, env):
+    """[adapter_map(arg.value, map_function) for arg in new_args]: every positional argument goes through adapter_map (PS2)"""
+    I.ghost["mapped_all_positional"] = True
+    return Opaque("mapped positional")
+
+
+def pat_map_kw(I, n, env):
+    """{k: adapter_map(kwarg.value, map_function) for k, kwarg in new_kwargs.items()}: every keyword argument -- including the
+    ones equal to their default -- goes through adapter_map"""
+    I.ghost["mapped_all_keywords"] = True
+    return Opaque("mapped keywords")
+
+
+def p_type_call(I, v):
+    def ctor(I2, *a, **k):
+        I2.ghost["rebuilt"] = True
+        return Opaque("rebuilt value")
+
+    return ctor
+
+
+contract(
+    GC + ".GenericCallAdapter.map",
+    params={"cls": "Opaque", "value": "Val", "map_function": "Opaque"},
+    callees={"GenericCallAdapter.arguments": p_arguments, "arguments": p_arguments, "type": p_type_call},
+    extern_patterns={
+        "[adapter_map(arg.value, map_function) for arg in new_args]": pat_map_pos,
+        "{k: adapter_map(kwarg.value, map_function) for (k, kwarg) in new_kwargs.items()}": pat_map_kw,
+    },
+    ghost={"vars": {"mapped_all_positional": "=False", "mapped_all_keywords": "=False", "rebuilt": "=False", "pos_args": "=None", "kw_args": "=None"},
+           "havoc_unknown_externals": True},
+    ensures={
+        # C10: UndecidedValue wraps Is()/nested snapshots by mapping map_unmanaged over *every* argument of a constructor call;
+        # an argument that is skipped (e.g. because it equals its default) loses its Unmanaged wrapper and gets rewritten
+        "every-argument-is-mapped [C10,C06]": "mapped_all_positional and mapped_all_keywords and rebuilt",
+    },
+    safety_props=["C18"],
+    assumes=["PS2"],
+)
